@@ -1002,3 +1002,90 @@ Proof.
     symmetry. apply (proj1 (NoDup_nth (map v_addr vs) 0) Hvs); rewrite ?map_length; assumption.
   - apply IH. intros i Hi. apply Hin. right. assumption.
 Qed.
+
+(* ------------------------------------------------------------------ canonical vote: field widths
+   (Canonical.v): height and round travel as sfixed64; on int64 values the wire record determines
+   the abstract record [signmsg], so the oracle "made by that key over that record" is the same
+   whether it compares abstract records or wire bytes. *)
+From TM Require Import C07.Canonical.
+
+Lemma le_bytes_mod : forall n a b,
+  le_bytes n a = le_bytes n b -> a mod 256 ^ Z.of_nat n = b mod 256 ^ Z.of_nat n.
+Proof.
+  induction n as [|n IH]; intros a b E.
+  - change (256 ^ Z.of_nat 0) with 1. now rewrite !Z.mod_1_r.
+  - cbn [le_bytes] in E. injection E as E0 E1. apply IH in E1.
+    rewrite Nat2Z.inj_succ, Z.pow_succ_r by lia.
+    assert (0 < 256 ^ Z.of_nat n) by (apply Z.pow_pos_nonneg; lia).
+    rewrite !Z.rem_mul_r by lia. now rewrite E0, E1.
+Qed.
+
+Lemma mod_eq_close : forall m a b, 0 < m -> a mod m = b mod m -> - m < a - b < m -> a = b.
+Proof.
+  intros m a b Hm E Hr.
+  pose proof (Z.div_mod a m ltac:(lia)) as Ha. pose proof (Z.div_mod b m ltac:(lia)) as Hb.
+  assert (a - b = m * (a / m - b / m)) as D by lia.
+  assert (a / m - b / m = 0) by nia. lia.
+Qed.
+
+Lemma sfixed64_inj : forall a b, int64_range a -> int64_range b -> sfixed64 a = sfixed64 b -> a = b.
+Proof.
+  unfold sfixed64, int64_range, min_int64, max_int64. intros a b Ha Hb E.
+  apply le_bytes_mod in E. change (256 ^ Z.of_nat 8) with 18446744073709551616 in E.
+  rewrite !Z.mod_mod in E by lia.
+  apply (mod_eq_close 18446744073709551616); lia.
+Qed.
+
+Lemma canonical_record_inj : forall a b,
+  signmsg_in_range a -> signmsg_in_range b -> canonical_record a = canonical_record b -> a = b.
+Proof.
+  intros [c1 t1 h1 r1 b1 s1] [c2 t2 h2 r2 b2 s2] [Ha1 Ha2] [Hb1 Hb2] E.
+  pose proof (f_equal cr_chain E) as Ec. pose proof (f_equal cr_type E) as Et.
+  pose proof (f_equal cr_height E) as Eh. pose proof (f_equal cr_round E) as Er.
+  pose proof (f_equal cr_bid E) as Eb. pose proof (f_equal cr_ts E) as Es.
+  cbv [canonical_record cr_chain cr_type cr_height cr_round cr_bid cr_ts
+       sm_chain sm_type sm_height sm_round sm_bid sm_ts] in *.
+  apply sfixed64_inj in Eh; [|assumption..]. apply sfixed64_inj in Er; [|assumption..].
+  congruence.
+Qed.
+
+Lemma zlist_eqb_eq : forall a b, zlist_eqb a b = true <-> a = b.
+Proof.
+  induction a as [|x a IH]; intros [|y b]; cbn [zlist_eqb]; split; intro E;
+    try reflexivity; try discriminate.
+  - apply andb_true_iff in E as [E1 E2]. apply Z.eqb_eq in E1. apply IH in E2. congruence.
+  - injection E as -> ->. rewrite Z.eqb_refl. cbn. now apply IH.
+Qed.
+
+Lemma opt_z_eqb_refl : forall a, opt_z_eqb a a = true.
+Proof. intros [x|]; cbn; [apply Z.eqb_refl | reflexivity]. Qed.
+
+Lemma canon_record_eqb_eq : forall a b, canon_record_eqb a b = true <-> a = b.
+Proof.
+  intros [c1 t1 h1 r1 b1 s1] [c2 t2 h2 r2 b2 s2]. unfold canon_record_eqb.
+  cbv [cr_chain cr_type cr_height cr_round cr_bid cr_ts].
+  rewrite !andb_true_iff, !Z.eqb_eq, !zlist_eqb_eq. split.
+  - intros [[[[[? ?] ?] ?] E] ?]. apply opt_z_eqb_eq in E. congruence.
+  - intro E. injection E as -> -> -> -> -> ->. repeat split; apply opt_z_eqb_refl.
+Qed.
+
+Lemma signmsg_eqb_refl : forall a, signmsg_eqb a a = true.
+Proof.
+  intros [c t h r b s]. unfold signmsg_eqb; cbn.
+  now rewrite !Z.eqb_refl, opt_z_eqb_refl.
+Qed.
+
+Lemma wire_oracle_is_ideal : forall pk m s,
+  signmsg_in_range m -> (forall k m', s = Signed k m' -> signmsg_in_range m') ->
+  wire_verify pk m s = ideal_verify pk m s.
+Proof.
+  intros pk m [k m'|] Hm Hs; [|reflexivity]. specialize (Hs k m' eq_refl).
+  unfold wire_verify, ideal_verify. f_equal.
+  destruct (canon_record_eqb (canonical_record m') (canonical_record m)) eqn:E.
+  - apply canon_record_eqb_eq in E. apply canonical_record_inj in E; [|assumption..].
+    subst. symmetry. apply signmsg_eqb_refl.
+  - destruct (signmsg_eqb m' m) eqn:F; [|reflexivity].
+    apply signmsg_eqb_eq in F.
+    subst. assert (canon_record_eqb (canonical_record m) (canonical_record m) = true)
+      by (now apply canon_record_eqb_eq). congruence.
+Qed.
